@@ -29,6 +29,10 @@ def c20 (toks : List String) : String :=
       let g := (groupByName (scrubHeaders hs)).foldr insertSortedPair []
       if g.isEmpty then "-" else ";".intercalate (g.map (fun e => s!"{e.1}={",".intercalate e.2}"))
     | _ => "bad-op"
+  | ["loggable", m, l, h] =>
+    match m.toNat?, l.toNat?, (if h == "-" then some [] else charsOfHex h) with
+    | some m, some l, some t => if loggable m l t then "1" else "0"
+    | _, _, _ => "bad-op"
   | ["scrubsni", h] =>
     match charsOfHex h with
     | some s => hexOfChars (scrubSni s)
